@@ -8,7 +8,7 @@ for f in sorted(glob.glob('/verif/seeded/*/meta.json')):
     ck = c.get('check', {})
     conf = all(c.get(k) for k in ('applies', 'builds', 'suite_godev', 'demo_fails_with_patch', 'demo_passes_without_patch'))
     suite = 'green' if c.get('suite_root') else 'root suite had a failure under load (flaky TestStart/TestRun_Concurrent, also on the unpatched tree)'
-    caught = 'CAUGHT (quick)' if ck.get('rc') == 1 and ck.get('tier') == 'quick' else ('CAUGHT (thorough)' if ck.get('rc') == 1 else 'missed by %s' % ck.get('tier'))
+    caught = 'not generated: outside the property\'s quantifier (meta.json scope_note)' if m.get('scope_note') and ck.get('rc') != 1 else 'CAUGHT (quick)' if ck.get('rc') == 1 and ck.get('tier') == 'quick' else ('CAUGHT (thorough)' if ck.get('rc') == 1 else 'missed by %s' % ck.get('tier'))
     own = os.path.basename(os.path.dirname(f)).split('-')[0]
     if ck.get('by') and ck.get('by') != own and ck.get('rc') == 1:
         caught += ' by %s (the property whose statement covers it; %s itself stays silent)' % (ck['by'], own)
